@@ -20,6 +20,16 @@ of erasure (bce).
   than print / CR / absolute positioning; a wide glyph on a 1-column screen; widths other than
   1 and 2; parameters outside the vocabulary).
 * `Res.accept l`: any state in `l` is acceptable (where DEC and xterm differ).
+
+Decisions on the edge of the vocabulary (round 4), stated here so that the oracle and the theorems use ONE definition:
+* A CSI control function other than SGR whose parameter string contains a colon (`CSI 2:5 A`, `CSI 1;2:3 H`): a DEC VT ignores
+  the whole sequence (DEC STD 070: 3/10 inside a parameter string sends the parser to "CSI ignore"; 3/10 is reserved for
+  ISO 8613-6 sub-parameters, which only SGR uses) and so does xterm (charproc.c: a sequence with sub-parameters that is not SGR
+  resets the parser). Both references agree, so there is no accept-set: `Tok.ignored`, `step t .ignored = accept [t]`.
+* DECSTR (`CSI ! p`, soft terminal reset) is NOT a token: the property's vocabulary lists the functions it constrains and soft
+  reset is not among them (RIS is there for the reset of the display state only).
+* The cursor SHAPE is not part of what C06 constrains (grid and cursor position); `cursorShape`/`cursorVisible` are carried for
+  the renderer-side users (C12) and compared by `SimC`, not by `T.accepts`.
 Core Lean only.
 -/
 import VaxisModel.Spec.Style
@@ -103,6 +113,7 @@ inductive Tok where
   | cursorShape (n : Nat)          -- DECSCUSR
   | ris                            -- ESC c: reset to the power-on state (at the current size)
   | osc8 (params url : List Nat)   -- OSC 8 ; params ; url ST: the hyperlink of the glyphs printed from now on ("" closes it)
+  | ignored                        -- a non-SGR CSI function with colon sub-parameters: ignored by a DEC VT and by xterm
   deriving DecidableEq, Repr, Inhabited
 
 inductive Res where
@@ -310,6 +321,7 @@ def step (t : T) : Tok → Res
   | .cursorShape n => one { t with cursorShape := n }
   | .osc8 _ url => one { t with link := url }
   | .ris => one (T.init t.rows t.cols)
+  | .ignored => one t
 
 /-! ### comparison -/
 
